@@ -19,7 +19,7 @@ def streams(tier, seed):
         # "wide": three- and four-word values (widths around 192 and 256, and 200/320), where whole-word shift amounts that are
         # not powers of two (192, 320, ..) and the top-word mask exist at all (added after seeded change C06-m7 escaped)
         return [dict(tag="main", count=20000, seed=seed),
-                dict(tag="wide", count=4000, seed=seed + 11, extra={"widths": "1,8,64,65,129,191,192,193,200,255,256,257,320,321"})]
+                dict(tag="wide", count=8000, seed=seed + 11, extra={"widths": "1,8,64,65,129,191,192,193,200,255,256,257,320,321"})]
     out = []
     for k in range(16):
         out.append(dict(tag="main%d" % k, count=60000, seed=seed * 1000 + k))
